@@ -4,7 +4,10 @@ use std::cmp::Reverse;
 use std::collections::HashMap;
 use std::hash::Hash;
 use std::marker::Copy;
+#[cfg(not(resolved_verif))]
 use std::sync::{Arc, Mutex};
+#[cfg(resolved_verif)]
+use crate::verif::sync::{Arc, Mutex};
 use std::time::{Duration, Instant};
 
 use dns_types::protocol::types::*;
@@ -180,6 +183,8 @@ impl Cache {
         name: &DomainName,
         qtype: QueryType,
     ) -> Vec<ResourceRecord> {
+        #[cfg(resolved_verif)]
+        use crate::verif::clock::Instant;
         let now = Instant::now();
         let mut rrs = Vec::new();
         match qtype {
@@ -330,6 +335,8 @@ impl<K1: Clone + Eq + Hash, K2: Copy + Eq + Hash, V: PartialEq> PartitionedCache
         &mut self,
         partition_key: &K1,
     ) -> Option<&HashMap<K2, Vec<(V, Instant)>>> {
+        #[cfg(resolved_verif)]
+        use crate::verif::clock::Instant;
         if let Some(partition) = self.partitions.get_mut(partition_key) {
             partition.last_read = Instant::now();
             self.access_priority
@@ -349,6 +356,8 @@ impl<K1: Clone + Eq + Hash, K2: Copy + Eq + Hash, V: PartialEq> PartitionedCache
         partition_key: &K1,
         record_key: &K2,
     ) -> Option<&[(V, Instant)]> {
+        #[cfg(resolved_verif)]
+        use crate::verif::clock::Instant;
         if let Some(partition) = self.partitions.get_mut(partition_key) {
             if let Some(tuples) = partition.records.get(record_key) {
                 partition.last_read = Instant::now();
@@ -364,6 +373,8 @@ impl<K1: Clone + Eq + Hash, K2: Copy + Eq + Hash, V: PartialEq> PartitionedCache
     /// Insert a record into the cache, or reset the expiry time if already
     /// present.
     pub fn upsert(&mut self, partition_key: K1, record_key: K2, value: V, ttl: Duration) {
+        #[cfg(resolved_verif)]
+        use crate::verif::clock::Instant;
         let now = Instant::now();
         let expiry = now + ttl;
         let tuple = (value, expiry);
@@ -468,6 +479,8 @@ impl<K1: Clone + Eq + Hash, K2: Copy + Eq + Hash, V: PartialEq> PartitionedCache
     ///
     /// Returns the number of records removed.
     fn remove_expired_step(&mut self) -> usize {
+        #[cfg(resolved_verif)]
+        use crate::verif::clock::Instant;
         if let Some((partition_key, Reverse(expiry))) = self.expiry_priority.pop() {
             let now = Instant::now();
 
@@ -742,5 +755,180 @@ pub mod test_util {
         assert_eq!(original.rtype_with_data, cached.rtype_with_data);
         assert_eq!(RecordClass::IN, cached.rclass);
         assert!(original.ttl >= cached.ttl);
+    }
+}
+
+#[cfg(resolved_verif)]
+mod verif_impl {
+    use super::*;
+    use crate::verif::clock::offset_of;
+    use crate::verif::snapshot::{CacheSnapshot, PartitionSnapshot};
+
+    impl SharedCache {
+        /// Read-only dump of the cache (does not touch access times).
+        ///
+        /// # Panics
+        ///
+        /// If the mutex has been poisoned.
+        pub fn verif_snapshot(&self) -> CacheSnapshot {
+            self.cache
+                .lock()
+                .expect(MUTEX_POISON_MESSAGE)
+                .verif_snapshot()
+        }
+
+        /// Check the structural invariants documented on the cache types.
+        ///
+        /// # Errors
+        ///
+        /// A description of the first invariant that does not hold.
+        ///
+        /// # Panics
+        ///
+        /// If the mutex has been poisoned.
+        pub fn verif_check_invariants(&self) -> Result<(), String> {
+            self.cache
+                .lock()
+                .expect(MUTEX_POISON_MESSAGE)
+                .verif_check_invariants()
+        }
+    }
+
+    impl Cache {
+        pub fn verif_snapshot(&self) -> CacheSnapshot {
+            let inner = &self.inner;
+            let mut partitions = Vec::with_capacity(inner.partitions.len());
+            for (name, partition) in &inner.partitions {
+                let mut records = Vec::with_capacity(partition.records.len());
+                for (rtype, tuples) in &partition.records {
+                    records.push((
+                        *rtype,
+                        tuples
+                            .iter()
+                            .map(|(v, e)| (v.clone(), offset_of(*e)))
+                            .collect::<Vec<_>>(),
+                    ));
+                }
+                records.sort_by_key(|(rtype, _)| *rtype);
+                partitions.push(PartitionSnapshot {
+                    name: name.clone(),
+                    last_read: offset_of(partition.last_read),
+                    next_expiry: offset_of(partition.next_expiry),
+                    size: partition.size,
+                    records,
+                });
+            }
+            partitions.sort_by(|a, b| a.name.cmp(&b.name));
+
+            let access_order = inner
+                .access_priority
+                .clone()
+                .into_sorted_iter()
+                .map(|(k, Reverse(t))| (k, offset_of(t)))
+                .collect();
+            let expiry_order = inner
+                .expiry_priority
+                .clone()
+                .into_sorted_iter()
+                .map(|(k, Reverse(t))| (k, offset_of(t)))
+                .collect();
+
+            CacheSnapshot {
+                partitions,
+                access_order,
+                expiry_order,
+                current_size: inner.current_size,
+                desired_size: inner.desired_size,
+            }
+        }
+
+        /// # Errors
+        ///
+        /// A description of the first invariant that does not hold.
+        pub fn verif_check_invariants(&self) -> Result<(), String> {
+            let inner = &self.inner;
+
+            if inner.access_priority.len() != inner.partitions.len() {
+                return Err(format!(
+                    "access_priority has {} keys, partitions has {}",
+                    inner.access_priority.len(),
+                    inner.partitions.len()
+                ));
+            }
+            if inner.expiry_priority.len() != inner.partitions.len() {
+                return Err(format!(
+                    "expiry_priority has {} keys, partitions has {}",
+                    inner.expiry_priority.len(),
+                    inner.partitions.len()
+                ));
+            }
+
+            let mut total = 0;
+            for (name, partition) in &inner.partitions {
+                match inner.access_priority.get_priority(name) {
+                    Some(Reverse(t)) if *t == partition.last_read => (),
+                    other => {
+                        return Err(format!(
+                            "access_priority of {name} is {other:?}, last_read is {:?}",
+                            partition.last_read
+                        ))
+                    }
+                }
+                match inner.expiry_priority.get_priority(name) {
+                    Some(Reverse(t)) if *t == partition.next_expiry => (),
+                    other => {
+                        return Err(format!(
+                            "expiry_priority of {name} is {other:?}, next_expiry is {:?}",
+                            partition.next_expiry
+                        ))
+                    }
+                }
+
+                let mut size = 0;
+                let mut min_expiry = None;
+                for (rtype, tuples) in &partition.records {
+                    size += tuples.len();
+                    for (i, (v, e)) in tuples.iter().enumerate() {
+                        if v.rtype() != *rtype {
+                            return Err(format!("{name}: {v:?} stored under {rtype}"));
+                        }
+                        if tuples[..i].iter().any(|(v2, _)| v2 == v) {
+                            return Err(format!("{name}: duplicate entry {v:?}"));
+                        }
+                        match min_expiry {
+                            None => min_expiry = Some(*e),
+                            Some(m) if *e < m => min_expiry = Some(*e),
+                            _ => (),
+                        }
+                    }
+                }
+                if size != partition.size {
+                    return Err(format!(
+                        "{name}: size is {}, holds {size} records",
+                        partition.size
+                    ));
+                }
+                match min_expiry {
+                    None => return Err(format!("{name}: partition without records")),
+                    Some(m) if m != partition.next_expiry => {
+                        return Err(format!(
+                            "{name}: next_expiry is {:?}, earliest record expiry is {m:?}",
+                            partition.next_expiry
+                        ))
+                    }
+                    _ => (),
+                }
+                total += size;
+            }
+
+            if total != inner.current_size {
+                return Err(format!(
+                    "current_size is {}, partitions hold {total} records",
+                    inner.current_size
+                ));
+            }
+
+            Ok(())
+        }
     }
 }
